@@ -398,7 +398,11 @@ func (s *Lexer) getNextToken() (*Token, error) {
 			break
 		} else if current_state == SBLOCKCOMMENTENDEND || current_state == SBLOCKCOMMENTSTARTEND {
 			buf.WriteRune(ch)
-			current_state = SBLOCKCOMMENT
+			if ch == ')' {
+				current_state = SBLOCKCOMMENTSTARTEND
+			} else {
+				current_state = SBLOCKCOMMENT
+			}
 		} else if ch == '\\' && current_state == SSTRING_DOUBLE {
 			current_state = SSTRING_D_ESCAPE
 		} else if current_state == SSTRING_DOUBLE {
